@@ -107,11 +107,10 @@ FinalOK(fin) ==
                   /\ t.hist = Append(fin[j].hist, p)                           \* history = parent's history + parent
                   \* params and user attrs (and inherited intermediate values) carried over: nobody else writes to the
                   \* failed trial, so its final content is its content when it became FAIL ...
-                  /\ (p \notin DOMAIN base \/ p \notin DOMAIN fiv) =>
-                        /\ t.pk = fin[j].pk
-                        /\ (Trace.cfg.inherit = 1 => t.pkiv = fin[j].pkiv)
+                  /\ ((p \notin DOMAIN base \/ p \notin DOMAIN fiv) =>
+                        (t.pk = fin[j].pk /\ (Trace.cfg.inherit = 1 => t.pkiv = fin[j].pkiv)))
                   \* ... unless its own worker is still writing (zombie family): then the logged writes say what it was
-                  /\ (p \in DOMAIN base /\ p \in DOMAIN fiv) => CarriesContentAtFail(p, t.c)
+                  /\ ((p \in DOMAIN base /\ p \in DOMAIN fiv) => CarriesContentAtFail(p, t.c))
             /\ t.failed = t.hist[1]
             /\ (MaxRetry # -1 => Len(t.hist) <= MaxRetry)                      \* never more than max_retry in a chain
        /\ (t.n \in DOMAIN known /\ t.n \notin DOMAIN failedBy /\ known[t.n].state \in {"COMPLETE", "RUNNING"})
